@@ -18,10 +18,10 @@ RULE = ("seeded circuits (several nodes per type, hierarchy 0-2) in which a rand
         "distinct = distinct spec hash")
 DECIDING = ['rows_compared', 'delayed_edges', 'mixed_delay_sources', 'vectorized_runs', 'several_delays_per_source',
             'matrix_delayed_edges', 'matrix_delays_off_grid']
-ASSUMPTIONS = ['delays round to at least two steps (shorter delays are deliberately neglected by the implementation)',
+ASSUMPTIONS = ['main sweep: delays round to at least two steps; delays that round to ONE step are a probe family of the recorded finding F-C09-one-step-delay',
                'zero pre-history of the ring buffer', 'Euler solver (one RHS call per step)']
 CASE_TIMEOUT = 240
-FOCUS = ['undelayed_shares_source_with_delayed', 'two_delayed_same_pair', 'delay_heun',
+FOCUS = ['one_step_delay', 'undelayed_shares_source_with_delayed', 'two_delayed_same_pair', 'delay_heun',
          'delayed_source_op_has_intra_consumer', 'two_delayed_source_vars_same_op']
 
 
@@ -86,6 +86,9 @@ def delay_risks(spec, solver):
             risk.add('delayed_source_op_has_intra_consumer')
     if any(len(v) > 1 for v in dvars_per_op.values()):
         risk.add('two_delayed_source_vars_same_op')
+    # a delay that rounds to exactly ONE step (0.5 dt <= d < 1.5 dt)
+    if any(a.get('delay') and round(float(a['delay']) / 1e-3) == 1 for _, _, _, a in edges):
+        risk.add('one_step_delay')
     return risk
 
 
@@ -113,6 +116,14 @@ def make_case(case, ctx):
                     d = rnd.randint(2, 9)
                     frac = rnd.choice([0.0, 0.0, 0.3, -0.3, 0.45])
                     e[3]['delay'] = round((d + frac) * dt, 7) if not uniform else common
+                    nd += 1
+            if want == 'one_step_delay':
+                # all delayed edges of the model are one-step delays (so that no other delay mechanism is involved)
+                nd = 0
+                for e in edges:
+                    e[3].pop('delay', None)
+                for e in rnd.sample(edges, rnd.randint(1, min(2, len(edges)))):
+                    e[3]['delay'] = round(rnd.choice([0.6, 1.0, 1.0, 1.4]) * dt, 7)
                     nd += 1
             if want == 'two_delayed_same_pair' and edges:
                 e = rnd.choice(edges)
@@ -221,6 +232,6 @@ def run_case(case, ctx):
 MANIFEST = {
     'technique': 'reference-recurrence monitor on Euler trajectories of generated circuits with mixed delayed/undelayed edges',
     'level_text': 'Generated circuits with random subsets of delayed edges (2-9 steps, incl. delays that are not multiples of dt), shared sources and targets, vectorize on/off are simulated with Euler and every state variable trajectory is compared (1e-7) with the reference recurrence in which each edge delivers weight*source[k-round(d/dt)] with zero pre-history; an off-by-one in any buffer slot, a delay applied to the wrong edge or a shifted undelayed edge is an O(1) deviation because sources are non-constant. A uniform-delay family gives all delayed edges one common delay. Held on observed circuits only.',
-    'level_note': 'Trusted: vp/ref.py delay recurrence. Delays below two steps are outside the property. Connectivity (matrix) delays: family `matrix` (population circuits with delayed weight-matrix / scalar-weight connections, delays on and off the step grid, compared unit by unit with the reference recurrence of the explicit network; generator and comparison shared with C16).',
+    'level_note': 'Trusted: vp/ref.py delay recurrence. Delays that round to one step are dropped by PyRates (recorded finding F-C09-one-step-delay, probe family); the main sweep uses 2-9 steps. Connectivity (matrix) delays: family `matrix` (population circuits with delayed weight-matrix / scalar-weight connections, delays on and off the step grid, compared unit by unit with the reference recurrence of the explicit network; generator and comparison shared with C16).',
 }
 # MANIFEST-END
